@@ -940,6 +940,16 @@ def complex_norm(m, c):
 M["Complex::norm"] = complex_norm
 
 
+def mem_discriminant(m, r):
+    """core::mem::discriminant: an opaque value that compares equal exactly for equal variants"""
+    v = deref(r)
+    if not isinstance(v, Agg): raise Unsupported(f"discriminant of {v!r}")
+    return Agg("Discriminant", None, [v.tag if v.tag is not None else (v.symtag if v.symtag is not None else 0)])
+
+
+M["std::mem::discriminant"] = M["core::mem::discriminant"] = M["discriminant"] = mem_discriminant
+
+
 def cmp_min_by_key(m, a, b, f):
     """std::cmp::min_by_key: the first argument when the keys compare equal"""
     ka, kb = m.call_value(f, [Ref([a], 0)]), m.call_value(f, [Ref([b], 0)])
